@@ -64,6 +64,16 @@ def reached():
         raise Violation('reached')
 
 
+def mkbytes(ints):
+    """bytes from a sequence of (possibly symbolic) ints without realising them."""
+    if _tracing():
+        from crosshair.tracers import NoTracing
+        from crosshair.libimpl.builtinslib import SymbolicBytes
+        with NoTracing():
+            return SymbolicBytes(list(ints))
+    return bytes(ints)
+
+
 class notrace:
     """`with notrace():` runs set-up code concretely (no-op outside CrossHair)."""
 
